@@ -40,7 +40,7 @@ Lemma valid_req_denote q : valid_req q = true ->
   request_ok (q_funcs q) (q_inputs q) = true
   /\ exists den, denote_run sym_body (q_funcs q) (q_inputs q) (q_internal q) = Ok den.
 Proof.
-  unfold valid_req. intros H. do 6 (apply andb_true_iff in H as [H ?]).
+  unfold valid_req. intros H. do 7 (apply andb_true_iff in H as [H ?]).
   split; [assumption|].
   destruct (denote_run sym_body (q_funcs q) (q_inputs q) (q_internal q)) as [den|e]; [now exists den|discriminate].
 Qed.
